@@ -490,6 +490,46 @@ theorem aug_jacobian_by_state_counterexample :
     odeAndSensitivityJacobianByStateRepaired 2 3 Jc Zc Zc (fun _ => 0) 3 3 = 1 := by
   decide
 
+/-! ### the same refutation over the reals: the statement "the by-state matrix as coded is the derivative" is false -/
+section refute
+
+def Ar : ℕ → ℕ → ℝ := fun i j => 2*(i:ℝ) + (j:ℝ) + 1
+/-- `f(x) = A x` on two states -/
+def fr : (ℕ → ℝ) → ℕ → ℝ := fun x i => Ar i 0 * x 0 + Ar i 1 * x 1
+def Jr : (ℕ → ℝ) → ℕ → ℕ → ℝ := fun _ => Ar
+def Zr : (ℕ → ℝ) → ℕ → ℕ → ℝ := fun _ _ _ => 0
+
+/-- FULL STATEMENT for the by-state arrangement as coded - refuted: for the linear system `x' = A x` (`nS = 2`, `nP = 3`)
+all hypotheses of the derivative theorems hold, yet entry (3,3) of `ode_and_sensitivity_jacobian(by_state=True)` is not
+the derivative of component 3 of `ode_and_sensitivity(by_state=True)` in `z_3`. -/
+theorem aug_jacobian_by_state_as_coded_refuted (z : ℕ → ℝ) :
+    ¬ HasDerivAt (fun v => augRhs 2 3 fr Jr Zr true (update z 3 v) 3)
+      (odeAndSensitivityJacobian 2 3 (Jr z) (Zr z) (Zr z) z true 3 3) (z 3) := by
+  have hu : ∀ (x : ℕ → ℝ) (c : ℕ) (v : ℝ) (k : ℕ), k < 2 → 2 ≤ c → update x c v k = x k := fun x c v k hk hc =>
+    update_of_ne (by omega) _ _
+  refine aug_jacobian_by_state_coded_not_derivative 2 3 fr Jr Zr Zr Zr ?_ ?_ ?_ ?_ ?_ ?_ ?_ z 3 3 (by norm_num) (by norm_num) ?_
+  · intro x c v hc; funext i; simp [fr, hu x c v 0 (by norm_num) hc, hu x c v 1 (by norm_num) hc]
+  · intro x c v _; rfl
+  · intro x c v _; rfl
+  · intro x i j _ hj
+    have hj' : j = 0 ∨ j = 1 := by omega
+    rcases hj' with rfl | rfl
+    · have e : (fun v => fr (update x 0 v) i) = (fun v => Ar i 0 * v + Ar i 1 * x 1) := by
+        funext v; simp [fr]
+      rw [e]
+      simpa [Jr] using ((hasDerivAt_id (x 0)).const_mul (Ar i 0)).add_const (Ar i 1 * x 1)
+    · have e : (fun v => fr (update x 1 v) i) = (fun v => Ar i 0 * x 0 + Ar i 1 * v) := by
+        funext v; simp [fr]
+      rw [e]
+      simpa [Jr] using ((hasDerivAt_id (x 1)).const_mul (Ar i 1)).const_add (Ar i 0 * x 0)
+  · intro x i l j _ _ _; simpa [Jr, Zr] using hasDerivAt_const (x j) (Ar i l)
+  · intro x i k j _ _ _; simpa [Zr] using hasDerivAt_const (x j) (0:ℝ)
+  · intro x e a b _ _ _; rfl
+  · simp [odeAndSensitivityJacobian, odeAndSensitivityJacobianByStateRepaired, bmat22, arrangeVector, kron, eye, Jr, Ar]
+    norm_num
+
+end refute
+
 /-! ## reshape round trips -/
 section roundtrip
 variable {α : Type}
